@@ -383,6 +383,25 @@ func mutantsOf(base, src string) []mutant {
 					add("const-out-of-range", "far-arg:"+b.Name(), a, "70000")
 				}
 			}
+			// variadic calls: a spread argument together with positional values for the variadic parameter; a spread
+			// argument for a non-variadic function; a missing fixed argument
+			if sig.Variadic() && len(x.Args) > 0 {
+				last := x.Args[len(x.Args)-1]
+				np := sig.Params().Len()
+				if x.Ellipsis.IsValid() {
+					add("call-arg-count", kind+":spread-with-extra-positional", last, "nil, "+text(last))
+					if et, ok := sig.Params().At(np - 1).Type().(*types.Slice); ok {
+						if b, ok := et.Elem().Underlying().(*types.Basic); ok && b.Info()&types.IsNumeric != 0 {
+							add("call-arg-count", kind+":spread-with-extra-positional", last, "0, "+text(last))
+						}
+					}
+				} else if len(x.Args) >= np {
+					// listed values: replace the last one by a spread of a slice literal while earlier variadic values remain
+					if et, ok := sig.Params().At(np - 1).Type().(*types.Slice); ok && len(x.Args) > np {
+						add("call-arg-count", kind+":positional-then-spread", last, types.TypeString(et, func(p *types.Package) string { return p.Name() })+"{}...")
+					}
+				}
+			}
 			if len(x.Args) > 0 && !x.Ellipsis.IsValid() && !sig.Variadic() {
 				last := x.Args[len(x.Args)-1]
 				add("call-arg-count", kind+":extra", last, text(last)+", 1")
